@@ -8,9 +8,9 @@ HARNESS_BUILD_FLAGS = pubrunner.HARNESS_BUILD_FLAGS
 SPEC = {
     "runners": [
         {"kind": "pubscript", "name": "scripted", "module": "CorrC15", "corr": "Run/CorrPub.v (Model/Pub.v vs /repo/publisher, scripted schedules, monitor mon15)",
-         "rule": "scripted: each case = one script (Subscribe with buffer/filter/timeout 60ms|160ms|60s|0|-1s/callbacks or nil, Publish, non-blocking receive, Advance = sleep past the short timeouts; OnTimeout / OnFiltered callbacks that call Subscriber.Close or Publication.Close from inside the callback (must return within 3s; a run where such a Close overlaps another Publish in real time is retried and otherwise discarded); then Advance + drain + settle) applied to the real package one stimulus at a time with a wait for quiescence; logical time = floor(real time / 20ms), a Publish stamped before the call and every callback when it runs, so that Coq's replay checks 'not before its own timeout' exactly and without wall-clock upper bounds; the C15 monitor checks OnFiltered exactly once per rejected pair (and never otherwise), OnTimeout at most once, only for accepted undelivered pairs and not before the pair's own deadline, every accepted pair accounted for at the end (received, or OnTimeout, or no callback set), no delivery goroutine left, no Publish call exceeding a 3s watchdog; the model replay checks buffers absorb exactly cap messages (channel lengths at every quiescence) and stay readable in order. distinct = by (family, stimuli); non-trivial = a timeout or an OnFiltered occurred, or a delivery had to wait."},
+         "rule": "scripted: each case = one script (Subscribe with buffer/filter/timeout 60ms|160ms|60s|0|-1s/callbacks or nil, Publish, non-blocking receive, Advance = sleep past the short timeouts; OnTimeout / OnFiltered callbacks that call Subscriber.Close or Publication.Close from inside the callback (must return within 3s; a run where such a Close overlaps another Publish in real time is retried and otherwise discarded); then Advance + drain + settle) applied to the real package one stimulus at a time with a wait for quiescence; logical time = floor(real time / 20ms), a Publish stamped before the call and every callback when it runs, so that Coq's replay checks 'not before its own timeout' exactly and without wall-clock upper bounds; XEnter is placed when the subscriber's filter returned (a delivery cannot start earlier), so time spent on other subscribers does not count towards a subscriber's timeout; the options of every Subscribe are passed in a seeded random order, plus 25 fixed orders of {WithFilter, WithTimeout, OnFiltered, OnTimeout}; the C15 monitor checks OnFiltered exactly once per rejected pair (and never otherwise), OnTimeout at most once, only for accepted undelivered pairs and not before the pair's own deadline, every accepted pair accounted for at the end (received, or OnTimeout, or no callback set), no delivery goroutine left, no Publish call exceeding a 3s watchdog; the model replay checks buffers absorb exactly cap messages (channel lengths at every quiescence) and stay readable in order. distinct = by (family, stimuli); non-trivial = a timeout or an OnFiltered occurred, or a delivery had to wait."},
         {"kind": "pubstress", "name": "stress", "mode": "c15", "corr": "Go-side monitor (harness/cmd/pubstress -mode c15, -race)",
-         "rule": "free-running (-race): first 150 bursts of 8-16 Publish calls released at the same instant onto a never-read buffer of 1-3 plus an unbuffered subscriber (timeouts 60s): every call must return within 2s and the buffer must hold exactly its capacity; then one big burst (quick 3000-5000 messages, thorough 1000..32000) outstanding on three subscribers with 60s timeouts that only start receiving afterwards: OnTimeout must not run at all, every message must arrive, Publish stays under 2s; then each round = 1-6 subscribers (never / slow / prompt receivers, buffers 0-3, timeouts 30ms..60s and 0 and -1s, both callbacks counting per message) and 1-4 concurrent publishers; every Publish call is timed (slowest must be < 2s while buffers are full and nobody receives); afterwards each (message, subscriber) pair must be exactly one of delivered / OnTimeout once / OnFiltered once, no OnTimeout earlier than the subscriber's own timeout after the Publish began, none at all for 60s subscribers, a never-receiver's buffer holds min(cap, accepted) messages (positive timeouts only: with a timeout <= 0 the select may take the already expired timer although there is room), and no goroutine of the package is left; evaluations = pairs checked."},
+         "rule": "free-running (-race): first the subscribe-while-publishing trials and the slow-filter round described under C06 (every message published after Subscribe returned must be accounted for; no timeout before the own timeout counted from the start of the subscriber's own delivery), then 150 bursts of 8-16 Publish calls released at the same instant onto a never-read buffer of 1-3 plus an unbuffered subscriber (timeouts 60s): every call must return within 2s and the buffer must hold exactly its capacity; then one big burst (quick 3000-5000 messages, thorough 1000..32000) outstanding on three subscribers with 60s timeouts that only start receiving afterwards: OnTimeout must not run at all, every message must arrive, Publish stays under 2s; then each round = 1-6 subscribers (never / slow / prompt receivers, buffers 0-3, timeouts 30ms..60s and 0 and -1s, both callbacks counting per message) and 1-4 concurrent publishers; every Publish call is timed (slowest must be < 2s while buffers are full and nobody receives); afterwards each (message, subscriber) pair must be exactly one of delivered / OnTimeout once / OnFiltered once, no OnTimeout earlier than the subscriber's own timeout after the Publish began, none at all for 60s subscribers, a never-receiver's buffer holds min(cap, accepted) messages (positive timeouts only: with a timeout <= 0 the select may take the already expired timer although there is room), and no goroutine of the package is left; evaluations = pairs checked."},
     ],
     "trusted": ["sync.Map (Range/Store/LoadAndDelete), channels/select, time.After, sync.RWMutex are modelled by contract (atomic steps of Model/Pub.v)",
                 "time.After(d) fires no earlier than d after the select was entered; real timer latency is not modelled (only 'not before' and 'eventually, within a generous bound' are claimed)",
